@@ -435,4 +435,12 @@ func runC04() int {
 
 func init() {
 	Checks["C04"] = func([]string) int { return runC04() }
+	e1ReplayHooks["C04"] = func(e *E1) {
+		e.Checker = C04Checker{}
+		e.Initials = []*Initial{{Name: "R0"}}
+		e.Frags = ValidityFragments()
+		e.Alphabet = validityAlphabet()
+		e.Opts = WorldOpts{Validation: &dconfig.Validation{}}
+		e.Deadline = time.Now().Add(time.Hour)
+	}
 }
